@@ -766,6 +766,10 @@ func (m *Machine) assert(cond *Term, id string, site string) {
 		m.res.AssertSat++
 		m.pathFailed = true
 		m.reportWith(&Finding{Kind: "assert", ID: id, Site: site, Msg: "assertion can fail"}, neg)
+		if cond.IsFalse() {
+			// fails on every run of this path: nothing to assume, keep exploring the path
+			return
+		}
 		// continue under the assumption that it held
 		if !m.feasible(cond) {
 			panic(pathEnd{"assume", "after failed assertion " + id})
